@@ -4,6 +4,7 @@
    closed statements).  NB: never use bare [subst] while [length x = L] is in context. *)
 From Coq Require Import List NArith Bool Lia Arith.
 From LP Require Import Prelude Pay Semver Merkle.
+From LP Require Stages.
 Import ListNotations.
 Local Open Scope N_scope.
 
@@ -725,6 +726,40 @@ Proof.
   rewrite IH. apply tw_roots_immutable with now sender m. exact E.
 Qed.
 
+(* ---------- UpdateStageConfig keeps every stage at its index ---------- *)
+Lemma replace_nth_ids : forall (l : list stage) n x old,
+  nth_error l n = Some old -> st_id x = st_id old -> map st_id (replace_nth n x l) = map st_id l.
+Proof.
+  induction l as [|y l IH]; intros n x old Hn Hx; destruct n as [|n]; cbn in *; try discriminate.
+  - inversion Hn; subst y. rewrite Hx. reflexivity.
+  - f_equal. apply IH with old; assumption.
+Qed.
+Lemma replace_nth_other : forall {A} (l : list A) n x j, j <> n -> nth_error (replace_nth n x l) j = nth_error l j.
+Proof.
+  induction l as [|y l IH]; intros n x j Hj; destruct n as [|n]; destruct j as [|j]; cbn; try reflexivity; try congruence.
+  apply IH. congruence.
+Qed.
+Lemma replace_nth_length : forall {A} (l : list A) n x, length (replace_nth n x l) = length l.
+Proof. induction l as [|y l IH]; intros [|n] x; cbn; try reflexivity. rewrite IH. reflexivity. Qed.
+
+Theorem tw_update_stage_in_place : forall sender id st en dn lm s s',
+  tw_update_stage_config sender id st en dn lm s = Ok s' ->
+  tw_roots s' = tw_roots s /\
+  map st_id (tw_stages s') = map st_id (tw_stages s) /\
+  length (tw_stages s') = length (tw_stages s) /\
+  (forall j, j <> N.to_nat id -> nth_error (tw_stages s') j = nth_error (tw_stages s) j).
+Proof.
+  intros sender id st en dn lm s s' E. unfold tw_update_stage_config in E.
+  destruct (is_admin (tw_admins s) sender); cbn in E; [|discriminate].
+  destruct (id <? N.of_nat (length (tw_stages s))); [|discriminate].
+  destruct (nth_error (tw_stages s) (N.to_nat id)) as [old|] eqn:Hn; [|discriminate].
+  destruct (validate_update _); [|discriminate]. cbn in E. inversion E. cbn [tw_roots tw_stages].
+  repeat split.
+  - apply replace_nth_ids with old; [exact Hn|reflexivity].
+  - apply replace_nth_length.
+  - intros j Hj. apply replace_nth_other. exact Hj.
+Qed.
+
 (* ---------- migrate is a frame; histories with migrates ---------- *)
 Theorem wl_migrate_frame : forall a n v s s', wl_migrate a n v s = Ok s' -> s' = s.
 Proof. intros a n v s s' E. unfold wl_migrate in E. destruct (merkle_migrate_ok a n v); inversion E. reflexivity. Qed.
@@ -764,6 +799,59 @@ Proof.
   induction h as [|st r IH]; intro s; [reflexivity|].
   cbn [tw_run_steps]. destruct (tw_apply st s) as [s'|] eqn:E; [|apply IH].
   rewrite IH. apply tw_roots_immutable_step with st. exact E.
+Qed.
+
+Theorem tw_ids_step : forall st s s', tw_apply st s = Ok s' -> map st_id (tw_stages s') = map st_id (tw_stages s).
+Proof.
+  intros [now sender m|a n v] s s' E; cbn [tw_apply] in E.
+  - destruct m as [id st en dn lm|ad ok|]; cbn [tw_execute] in E.
+    + apply tw_update_stage_in_place in E. tauto.
+    + unfold tw_update_admins in E. destruct (can_modify _ _ _); cbn in E; [|discriminate].
+      destruct ok; cbn in E; [|discriminate]. inversion E. reflexivity.
+    + unfold tw_freeze in E. destruct (can_modify _ _ _); cbn in E; [|discriminate]. inversion E. reflexivity.
+  - apply tw_migrate_frame in E. rewrite E. reflexivity.
+Qed.
+
+Theorem tw_pairing_step : forall st s s', tw_apply st s = Ok s' -> tw_pairing s' = tw_pairing s.
+Proof.
+  intros st s s' E. unfold tw_pairing.
+  rewrite (tw_ids_step st s s' E), (tw_roots_immutable_step st s s' E). reflexivity.
+Qed.
+(* stage identity <-> root index is invariant over histories of Execute and Migrate calls *)
+Theorem tw_pairing_steps : forall h s, tw_pairing (tw_run_steps h s) = tw_pairing s.
+Proof.
+  induction h as [|st r IH]; intro s; [reflexivity|].
+  cbn [tw_run_steps]. destruct (tw_apply st s) as [s'|] eqn:E; [|apply IH].
+  rewrite IH. apply tw_pairing_step with st. exact E.
+Qed.
+
+(* the validation of the update is the one of C13's model (Stages.v, kind KMerkle) *)
+Definition to_c13 (s : stage) : Stages.stage :=
+  Stages.mkStage (st_id s) (st_start s) (st_end s) (st_denom s) 0 (st_limit s) None.
+Lemma forallb_map' {A B} (f : B -> bool) (g : A -> B) l : forallb f (map g l) = forallb (fun x => f (g x)) l.
+Proof. induction l as [|x l IH]; cbn [map forallb]; [reflexivity|rewrite IH; reflexivity]. Qed.
+Lemma stages_ordered_c13 : forall l, Stages.windows_ok (map to_c13 l) = stages_ordered l.
+Proof.
+  induction l as [|s r IH]; [reflexivity|].
+  cbn [map Stages.windows_ok stages_ordered]. rewrite forallb_map', IH. reflexivity.
+Qed.
+Lemma is_ok_guard4 : forall a b c d,
+  is_ok (do _ <- guard a; do _ <- guard b; do _ <- guard c; guard d) = a && b && c && d.
+Proof. intros [] [] [] []; reflexivity. Qed.
+Theorem validate_update_c13 : forall l,
+  is_ok (validate_update l) = Stages.validate_update Stages.KMerkle (map to_c13 l).
+Proof.
+  intros [|s0 r]; [reflexivity|].
+  unfold validate_update, Stages.validate_update, Stages.validate_common.
+  rewrite map_length, stages_ordered_c13.
+  change (Stages.same_denom (map to_c13 (s0 :: r)))
+    with (forallb (fun o => Stages.s_denom o =? Stages.s_denom (to_c13 s0)) (map to_c13 (s0 :: r))).
+  rewrite !forallb_map'.
+  change (fun x => Stages.pal_ok Stages.KMerkle (to_c13 x))
+    with (fun s => negb (st_limit s =? 0) && (st_limit s <=? MAXPAL)).
+  change (fun x => Stages.s_denom (to_c13 x) =? Stages.s_denom (to_c13 s0))
+    with (fun s => st_denom s =? st_denom s0).
+  rewrite is_ok_guard4. reflexivity.
 Qed.
 
 (* hence whatever was accepted / rejected before a history is accepted / rejected after it
